@@ -40,7 +40,7 @@ func ruleLcLp(c *Ctx, r *Report, prefix string) {
 			if okc, _, _ := consequence(c, fn, g.iff, true); okc {
 				ok = true
 			}
-		} else if (g.op == token.GTR && k == 4 || g.op == token.GEQ && k == 5) {
+		} else if g.op == token.GTR && k == 4 || g.op == token.GEQ && k == 5 {
 			got = t
 		}
 	}
